@@ -157,7 +157,7 @@ pub fn s_set(slot: u8, val: u8, ntopics: u8, topics: [u8; 4]) -> Vec<u8> {
 /// Probe contract **Ctx**: records the execution context into storage slots.
 ///  0 NUMBER, 1 TIMESTAMP, 2 PREVRANDAO, 3 CHAINID, 4 BASEFEE, 5 GASPRICE, 6 COINBASE, 7 ORIGIN, 8 CALLER,
 ///  9..12 BLOCKHASH(n-1, n-2, n-256, n-257), 13 success of STATICCALL 0xfa getTxId(), 14 its answer word,
-///  15 GASLIMIT, 17 RETURNDATASIZE of that call
+///  15 GASLIMIT, 17 RETURNDATASIZE of that call, 18 BLOCKHASH(n), 19 BLOCKHASH(n+1)
 pub fn ctx_runtime() -> Vec<u8> {
     let mut a = Asm::new();
     for (slot, opc) in [(0u64, 0x43u8), (1, 0x42), (2, 0x44), (3, 0x46), (4, 0x48), (5, 0x3a), (6, 0x41), (7, 0x32), (8, 0x33), (15, 0x45)] {
@@ -166,6 +166,9 @@ pub fn ctx_runtime() -> Vec<u8> {
     for (slot, k) in [(9u64, 1u64), (10, 2), (11, 256), (12, 257)] {
         a.push(k).op(0x43).op(0x03).op(0x40).push(slot).op(0x55);
     }
+    // 18 BLOCKHASH(NUMBER) (the block under construction: zero), 19 BLOCKHASH(NUMBER + 1) (zero)
+    a.op(0x43).op(0x40).push(18).op(0x55);
+    a.push(1).op(0x43).op(0x01).op(0x40).push(19).op(0x55);
     let sel = &alloy::primitives::keccak256(b"getTxId()")[..4];
     let selv = u32::from_be_bytes([sel[0], sel[1], sel[2], sel[3]]) as u64;
     a.push(selv).push(0).op(0x52);
@@ -179,4 +182,12 @@ pub fn ctx_runtime() -> Vec<u8> {
 
 pub fn ctx_initcode() -> Vec<u8> {
     initcode(&ctx_runtime())
+}
+
+/// A proxy: forwards its call data to `target` with CALL (value 0, all gas) and stops.
+pub fn proxy_runtime(target: &[u8]) -> Vec<u8> {
+    let mut rt: Vec<u8> = vec![0x36, 0x5f, 0x5f, 0x37, 0x5f, 0x5f, 0x36, 0x5f, 0x5f, 0x73];
+    rt.extend_from_slice(target);
+    rt.extend_from_slice(&[0x5a, 0xf1, 0x50, 0x00]);
+    rt
 }
